@@ -197,7 +197,7 @@ func genFilter(n int) {
 	p("%s Register() { x.f.Register() }\n", recv)
 	p("%s Unregister() { x.f.Unregister() }\n", recv)
 	p("%s Batch(rels []RelArg) ecs.Batch { return x.f.Batch(x.env.rels(x.all, rels)...) }\n", recv)
-	p("%s Query(rels []RelArg) Query {\n\treturn &%s%s{q: x.f.Query(x.env.rels(x.all, rels)...), all: x.all}\n}\n\n", recv, qn, br)
+	p("%s Query(rels []RelArg) Query {\n\treturn &%s%s{q: x.f.Query(x.env.rels(x.all, rels)...), all: x.cs}\n}\n\n", recv, qn, br)
 	p("type %s%s struct {\n\tq ecs.Query%d%s\n\tall []ct.Comp\n}\n\n", qn, brA, n, br)
 	qrecv := fmt.Sprintf("func (x *%s%s)", qn, br)
 	p("%s Next() bool { return x.q.Next() }\n", qrecv)
@@ -291,7 +291,7 @@ func smallTuples() [][]ct.Comp {
 	out = append(out, [][]ct.Comp{
 		{ct.P, ct.Q}, {ct.Q, ct.P}, {ct.P, ct.R1}, {ct.R1, ct.P}, {ct.Q, ct.R1}, {ct.R1, ct.Q}, {ct.R1, ct.R2}, {ct.R2, ct.R1},
 		{ct.P, ct.R2}, {ct.R2, ct.P}, {ct.Q, ct.R2}, {ct.P, ct.S}, {ct.S, ct.P}, {ct.S, ct.Z}, {ct.Z, ct.S}, {ct.P, ct.Z}, {ct.Q, ct.S}, {ct.P, ct.L}, {ct.L, ct.S},
-		{ct.S, ct.R1}, {ct.S, ct.L}, {ct.Q, ct.Z}, {ct.Q, ct.L}, {ct.Z, ct.L},
+		{ct.S, ct.R1}, {ct.S, ct.L}, {ct.Q, ct.Z}, {ct.Q, ct.L}, {ct.Z, ct.L}, {ct.L, ct.Z}, {ct.L, ct.P}, {ct.S, ct.Q},
 		{ct.P, ct.Q, ct.R1}, {ct.P, ct.R1, ct.R2}, {ct.Q, ct.R1, ct.R2}, {ct.P, ct.Q, ct.S}, {ct.P, ct.Q, ct.R2}, {ct.S, ct.Z, ct.L},
 		{ct.P, ct.Q, ct.R1, ct.R2},
 	}...)
